@@ -220,6 +220,50 @@ let verdict_blob comp len impl =
   | ["panic"] -> "diff impl-panic"
   | _ -> "error bad-impl-output"
 
+(* G cases: one huge component; model = big_outcome (C09_int_boundary) *)
+let verdict_big what len impl =
+  let k = match what with "p" -> BigPrepare | "q" -> BigQuery | "a" -> BigAuth | "c" -> BigCell | "b" -> BigBatch
+                        | _ -> failwith "bad G kind" in
+  let m = big_outcome k (n_of_hex len) in
+  let ms = match m with Ok b -> "len " ^ hex_of_n b ^ " " ^ hex_of_n b | Err e -> "err " ^ err_name e in
+  match impl with
+  | ["skipped"] -> "ok skipped-not-enough-memory"
+  | ["len"; b; f] ->
+    let b = n_of_hex b and f = n_of_hex f in
+    if f <> b then Printf.sprintf "viol length-field=%s differs-from-body-size=%s" (hex_of_n f) (hex_of_n b)
+    else (match m with
+        | Ok mb -> if mb = b then "ok" else "diff model=" ^ ms
+        | Err _ -> "viol oversize-component-accepted model=" ^ ms)     (* C09_oversize *)
+  | "err" :: cls ->
+    (match m with
+     | Err e -> if err_name e = String.concat " " cls then "ok" else "diff model=" ^ ms
+     | Ok _ -> "viol legitimate-request-refused impl=err " ^ String.concat " " cls)
+  | ["panic"] -> "diff impl-panic"
+  | _ -> "error bad-impl-output"
+
+(* C census: the crate's public constants against the model's tables; the model's private flag
+   bits are printed in the verdict for the source scan of checks/c09.py *)
+let verdict_census impl =
+  let qp0 = { qp_consistency = One; qp_serial = None; qp_timestamp = None; qp_page_size = None;
+              qp_paging = None; qp_skip_metadata = false; qp_values = [] } in
+  let hl l = String.concat "," (List.map hex_of_n l) in
+  let model = [
+    "ops=" ^ hl (List.map opcode [Startup []; Options; Query ([], qp0); Prepare []; Execute ([], None, qp0);
+                                  Register []; Batch (Logged, [], [], One, None, None); AuthResponse None]);
+    "cons=" ^ hl (List.map cons_code [Any; One; Two; Three; Quorum; All; LocalQuorum; EachQuorum; Serial; LocalSerial; LocalOne]);
+    "serial=" ^ hl (List.map serial_code [SSerial; SLocalSerial]);
+    "bt=" ^ hl (List.map batch_type_code [Logged; Unlogged; Counter]);
+    (* the model uses header flags 1 (compression) and 2 (tracing); 4 and 8 are what parse_frame refuses *)
+    "fflags=" ^ hl [frame_flags true false; frame_flags false true; n_of_int 4; n_of_int 8];
+    "events=" ^ String.concat "," (List.map (fun e -> hex_of_nlist (event_name e)) [EvTopology; EvStatus; EvSchema; EvClientRoutes]) ] in
+  let t = true and f = false in
+  let table = Printf.sprintf "qflags=VALUES:%s,SKIP_METADATA:%s,PAGE_SIZE:%s,WITH_PAGING_STATE:%s,WITH_SERIAL_CONSISTENCY:%s,WITH_DEFAULT_TIMESTAMP:%s,WITH_NAMES_FOR_VALUES:40 bflags=WITH_SERIAL_CONSISTENCY:%s,WITH_DEFAULT_TIMESTAMP:%s"
+      (hex_of_n (qp_flags t f f f f f)) (hex_of_n (qp_flags f t f f f f)) (hex_of_n (qp_flags f f t f f f))
+      (hex_of_n (qp_flags f f f t f f)) (hex_of_n (qp_flags f f f f t f)) (hex_of_n (qp_flags f f f f f t))
+      (hex_of_n (batch_flags t f)) (hex_of_n (batch_flags f t)) in
+  if impl = model then "ok " ^ table
+  else "diff census model=" ^ String.concat " " model
+
 let stream_of_frame (f : n list) : z =
   match f with
   | _ :: _ :: a :: b :: _ ->
@@ -246,6 +290,15 @@ let verdict_e2e impl =
           (match (try Some (request_of case []) with _ -> None) with
            | None -> bad := Printf.sprintf "item%d:cannot-read-what-was-asked" k :: !bad
            | Some r ->
+             (* STARTUP maps and REGISTER lists are sets: adopt the order on the wire when the
+                contents agree *)
+             let canon = function
+               | Startup l -> Startup (List.sort compare l)
+               | Register l -> Register (List.sort compare l)
+               | x -> x in
+             let r = match r, parse_frame no_codec None (uses_mid r) frame with
+               | (Startup _ | Register _), Ok (_, r') when canon r' = canon r -> r'
+               | _ -> r in
              if not (frame_says no_codec None false (stream_of_frame frame) r frame) then
                bad := Printf.sprintf "item%d:%s" k (String.sub item 0 (min i 60)) :: !bad)) items;
     if items = [] then "diff e2e-without-frames"
@@ -255,19 +308,8 @@ let verdict_e2e impl =
 
 let rec take_l k l = if k <= 0 then [] else match l with [] -> [] | x :: r -> x :: take_l (k - 1) r
 
-let verdict case impl =
-  match case with
-  | ["L"; n; t] -> verdict_len n t impl
-  | ["M"; c; _; len] -> verdict_blob (comp_of c) len impl
-  | ["N"; _] -> verdict_e2e impl
-  | _ ->
-  let comp = comp_of (List.nth case 1) in
-  let tr = (List.nth case 2 = "1") in
-  let r = request_of case impl in
-  (* STARTUP lines carry the iteration order before the frame *)
-  let impl = match case, impl with
-    | "S" :: _, "ok" :: _ :: rest -> "ok" :: rest
-    | _ -> impl in
+(* comparison of an observed make()/set_stream outcome with the model, for a given abstract request *)
+let verdict_frame comp tr r impl =
   match impl with
   | ["panic"] -> "diff impl-panic"
   | "err" :: cls ->
@@ -325,5 +367,76 @@ let verdict case impl =
        else if mh0 <> hdr0 then "diff header-as-made model=" ^ mh0 ^ " impl=" ^ hdr0
        else "diff " ^ first_diff mh frame_hex ^ (if body_ok then "" else " decompressed-body-differs"))
   | _ -> "error bad-impl-output"
+
+(* V cases: a typed row bound to columns by the real SerializeRow impls.  Model: bind_row with
+   mini_ser (C09_values_in_order / C09_bind_row_total), then the EXECUTE frame carrying the cells. *)
+let parse_mval (s : string) : mval =
+  match s.[0] with
+  | 'i' -> MInt (z_of_hex (tl_str s))
+  | 't' -> MText (parse_bytes (tl_str s))
+  | 'b' -> MBlob (parse_bytes (tl_str s))
+  | 'n' -> MNull | 'u' -> MUnset
+  | _ -> failwith "bad mval"
+let row_err_name = function
+  | WrongColumnCount (a, b) -> Printf.sprintf "row wrong-column-count %s %s" (hex_of_n a) (hex_of_n b)
+  | ValueMissingForColumn n -> "row value-missing " ^ hex_of_nlist n
+  | NoColumnWithName n -> "row no-column " ^ hex_of_nlist n
+  | ColumnSerializationFailed n -> "row column-failed " ^ hex_of_nlist n
+  | RowTooManyValues -> "row too-many-values"
+let verdict_row kind cols row impl =
+  let cols = if cols = "-" then [] else
+      List.fold_left (fun acc item ->
+          let c, n = split_rep item '*' in
+          let i = String.index c ':' in
+          let ty = match c.[i + 1] with 'i' -> TInt | 't' -> TText | 'b' -> TBlob | _ -> failwith "bad type" in
+          repeat_onto (parse_bytes (String.sub c 0 i), ty) n acc) [] (split_on ',' cols) |> List.rev in
+  let r =
+    if kind.[0] = 'm' then begin
+      let kvs = if row = "-" then [] else
+          List.map (fun item -> let i = String.index item '=' in
+                     (parse_bytes (String.sub item 0 i), parse_mval (String.sub item (i + 1) (String.length item - i - 1))))
+            (split_on ',' row) in
+      (* a repeated key keeps the first, as the runner does *)
+      let seen = Hashtbl.create 8 in
+      RMap (List.filter (fun (k, _) -> if Hashtbl.mem seen k then false else (Hashtbl.add seen k (); true)) kvs)
+    end else if kind = "u" || kind = "z" then RUnit
+    else begin
+      let vs = if row = "-" then [] else
+          List.fold_left (fun acc item -> let m, n = split_rep item '*' in repeat_onto (parse_mval m) n acc) []
+            (split_on ',' row) |> List.rev in
+      (* the tuple of arity 0 is () *)
+      if kind = "t" && vs = [] then RUnit else RSeq vs
+    end in
+  match bind_row mini_ser cols r, impl with
+  | Err e, "err" :: cls ->
+    let cls = String.concat " " cls in
+    if row_err_name e = cls then "ok" else "diff model=err " ^ row_err_name e
+  | Err e, "ok" :: _ ->
+    (* C09_bind_row_total: no value list can be this row bound in order with nothing left over *)
+    "viol row-accepted-although-it-cannot-be-bound model=err " ^ row_err_name e
+  | Ok _, "err" :: cls -> "viol legitimate-row-refused impl=err " ^ String.concat " " cls
+  | Ok cells, _ ->
+    let qp = { qp_consistency = One; qp_serial = None; qp_timestamp = None; qp_page_size = None;
+               qp_paging = None; qp_skip_metadata = false; qp_values = cells } in
+    verdict_frame None false (Execute ([byte_tab.(12); byte_tab.(9)], None, qp)) impl
+  | _, _ -> "error bad-impl-output"
+
+let verdict case impl =
+  match case with
+  | ["L"; n; t] -> verdict_len n t impl
+  | ["M"; c; _; len] -> verdict_blob (comp_of c) len impl
+  | ["N"; _] -> verdict_e2e impl
+  | ["G"; what; len] -> verdict_big what len impl
+  | ["C"; _] -> verdict_census impl
+  | ["V"; kind; cols; row] -> verdict_row kind cols row impl
+  | _ ->
+  let comp = comp_of (List.nth case 1) in
+  let tr = (List.nth case 2 = "1") in
+  let r = request_of case impl in
+  (* STARTUP lines carry the iteration order before the frame *)
+  let impl = match case, impl with
+    | "S" :: _, "ok" :: _ :: rest -> "ok" :: rest
+    | _ -> impl in
+  verdict_frame comp tr r impl
 
 let () = run_lines verdict
